@@ -15,10 +15,12 @@ import (
 )
 
 type vfC11Conn struct {
-	SMAdv      bool   `json:"smadv"`       // urn:xmpp:sm:3 advertised on this connection
-	Reply      string `json:"reply"`       // reply to <resume/> if one arrives: resumed | resumed-other | failed | failed-cond | failed-item | unexpected | malformed | close
-	EnableRes  string `json:"enable_res"`  // resume attribute of <enabled/> if the client enables SM here: true | false | ""
-	Stanzas    int    `json:"stanzas"`     // stanzas the peer sends on this connection before cutting it
+	SMAdv       bool   `json:"smadv"`                  // urn:xmpp:sm:3 advertised on this connection
+	Reply       string `json:"reply"`                  // reply to <resume/> if one arrives: resumed | resumed-other | failed | failed-cond | failed-item | unexpected | malformed | close
+	EnableRes   string `json:"enable_res"`             // resume attribute of <enabled/> if the client enables SM here: true | false | ""
+	Stanzas     int    `json:"stanzas"`                // stanzas the peer sends on this connection before cutting it
+	BindReply   string `json:"bind_reply,omitempty"`   // "" (result) | error
+	EnableReply string `json:"enable_reply,omitempty"` // "" (enabled with an id) | noid (enabled without id) | failed
 }
 
 type vfC11Case struct {
@@ -26,12 +28,14 @@ type vfC11Case struct {
 }
 
 type vfC11Seen struct {
-	resume    *vfElem
-	bind      bool
-	enable    bool
-	enabledId string
-	done      string // bound | resumed | aborted
-	err       string
+	resume       *vfElem
+	bind         bool
+	enable       bool
+	enabledId    string
+	done         string // bound | resumed | aborted
+	err          string
+	bindRefused  bool
+	enableFailed bool
 }
 
 func vfC11Run(run *vfkit.Run, cs *vfC11Case) {
@@ -109,16 +113,32 @@ func vfC11Run(run *vfkit.Run, cs *vfC11Case) {
 				}
 			case e.Is("", "iq") && e.Child("bind") != nil:
 				sn.bind = true
+				if sc.BindReply == "error" {
+					pc.Send(fmt.Sprintf("<iq type='error' id='%s'><error type='cancel'><conflict xmlns='urn:ietf:params:xml:ns:xmpp-stanzas'/></error></iq>", e.Attrs["id"]))
+					sn.bindRefused = true
+					continue
+				}
 				pc.Send(fmt.Sprintf("<iq type='result' id='%s'><bind xmlns='%s'><jid>test@localhost/c%d</jid></bind></iq>", e.Attrs["id"], vfNSBind, k))
 				sn.done = "bound"
 			case e.Is(vfNSSM, "enable"):
 				sn.enable = true
-				sn.enabledId = fmt.Sprintf("id-%d", k)
 				res := ""
 				if sc.EnableRes != "" {
 					res = " resume='" + sc.EnableRes + "'"
 				}
-				pc.Send(fmt.Sprintf("<enabled xmlns='%s' id='%s'%s/>", vfNSSM, sn.enabledId, res))
+				switch sc.EnableReply {
+				case "failed":
+					sn.enable = false
+					sn.enableFailed = true
+					pc.Send("<failed xmlns='" + vfNSSM + "'><internal-server-error xmlns='urn:ietf:params:xml:ns:xmpp-stanzas'/></failed>")
+					continue
+				case "noid":
+					sn.enabledId = ""
+					pc.Send(fmt.Sprintf("<enabled xmlns='%s'%s/>", vfNSSM, res))
+				default:
+					sn.enabledId = fmt.Sprintf("id-%d", k)
+					pc.Send(fmt.Sprintf("<enabled xmlns='%s' id='%s'%s/>", vfNSSM, sn.enabledId, res))
+				}
 			case e.Is("", "presence"):
 				break loop // end of a fresh negotiation started by Connect
 			}
@@ -162,7 +182,7 @@ func vfC11Run(run *vfkit.Run, cs *vfC11Case) {
 	heldId := ""      // id of the last <enabled/>, "" when nothing to resume
 	inbound := 0      // stanzas received on the stream-managed session
 	smActive := false // a stream-managed session exists
-	waitLoss := -1 // Disconnected events to wait for before the next reconnect (-1: none)
+	waitLoss := -1    // Disconnected events to wait for before the next reconnect (-1: none)
 	everIssued := map[string]bool{}
 	unknownState := false // after a connection without SM advertised nothing is asserted about what is held
 	var bindJid string
@@ -258,12 +278,17 @@ func vfC11Run(run *vfkit.Run, cs *vfC11Case) {
 			run.Count("resumptions_confirmed", 1)
 		case sn.resume != nil:
 			refused := strings.HasPrefix(sc.Reply, "failed")
-			if refused && (cerr != nil || !sn.bind) {
+			if refused && !sn.bind {
+				run.Violation("C11/no-bind-after-refusal:"+sc.Reply, fmt.Sprintf("connection %d: resumption refused with %q; a fresh bind must follow, none was attempted (err=%v)", k, sc.Reply, cerr), cs)
+				go c.Disconnect()
+				return
+			}
+			if refused && cerr != nil && !sn.bindRefused && !sn.enableFailed {
 				run.Violation("C11/no-bind-after-refusal:"+sc.Reply, fmt.Sprintf("connection %d: resumption refused with %q; a fresh bind must follow, got bind=%v err=%v", k, sc.Reply, sn.bind, cerr), cs)
 				go c.Disconnect()
 				return
 			}
-			if cerr == nil && !sn.bind {
+			if cerr == nil && (!sn.bind || sn.bindRefused) {
 				run.Violation("C11/old-session-continued:"+sc.Reply, fmt.Sprintf("connection %d: reply %q is not a confirmation of the id, yet the connection succeeded without a bind", k, sc.Reply), cs)
 				go c.Disconnect()
 				return
@@ -277,7 +302,7 @@ func vfC11Run(run *vfkit.Run, cs *vfC11Case) {
 			heldId, inbound, smActive = "", 0, false
 			run.Count("refusals_and_mismatches", 1)
 		default:
-			if cerr == nil && !sn.bind {
+			if cerr == nil && (!sn.bind || sn.bindRefused) {
 				run.Violation("C11/success-without-bind-or-resume", fmt.Sprintf("connection %d succeeded without bind and without resumption", k), cs)
 				go c.Disconnect()
 				return
@@ -289,6 +314,10 @@ func vfC11Run(run *vfkit.Run, cs *vfC11Case) {
 				}
 				heldId, inbound, smActive = "", 0, false
 			}
+		}
+		if cerr != nil && k > 0 && sn.resume == nil && sn.bind {
+			// a fresh bind was attempted (and failed): whatever session existed before is over
+			heldId, inbound, smActive = "", 0, false
 		}
 		if cerr != nil {
 			// the connection failed: the next attempt happens without a new loss event
@@ -346,6 +375,19 @@ func TestVf_C11(t *testing.T) {
 			}
 		}
 	}
+	// a refusal whose fallback bind is rejected too, an <enabled/> without id, an <enable/> answered with <failed/>:
+	// in each case the next connection must not present anything stale
+	ok0 := vfC11Conn{SMAdv: true, EnableRes: "true", Stanzas: 2}
+	for _, r2 := range []string{"resumed", "failed", "unexpected"} {
+		last := vfC11Conn{SMAdv: true, Reply: r2, EnableRes: "true", Stanzas: 1}
+		for _, r1 := range []string{"failed", "failed-item", "failed-cond"} {
+			cases = append(cases, &vfC11Case{Conns: []vfC11Conn{ok0, {SMAdv: true, Reply: r1, BindReply: "error"}, last}})
+		}
+		cases = append(cases, &vfC11Case{Conns: []vfC11Conn{{SMAdv: true, EnableRes: "true", EnableReply: "noid", Stanzas: 1}, last}})
+		cases = append(cases, &vfC11Case{Conns: []vfC11Conn{{SMAdv: true, EnableRes: "", EnableReply: "noid", Stanzas: 1}, last}})
+		cases = append(cases, &vfC11Case{Conns: []vfC11Conn{{SMAdv: true, EnableReply: "failed"}, last}})
+		cases = append(cases, &vfC11Case{Conns: []vfC11Conn{ok0, {SMAdv: true, Reply: "failed", EnableRes: "true", EnableReply: "failed"}, last}})
+	}
 	// longer histories, sampled
 	r := vfkit.Rand(11)
 	extra := vfkit.Pick(10, 300)
@@ -360,7 +402,13 @@ func TestVf_C11(t *testing.T) {
 		// quick: all 2-connection histories, a seed-chosen quarter of the rest
 		var keep []*vfC11Case
 		for _, c := range cases {
-			if len(c.Conns) == 2 || r.Intn(4) == 0 {
+			special := false
+			for _, cc := range c.Conns {
+				if cc.BindReply != "" || cc.EnableReply != "" {
+					special = true
+				}
+			}
+			if len(c.Conns) == 2 || special || r.Intn(4) == 0 {
 				keep = append(keep, c)
 			}
 		}
